@@ -103,3 +103,40 @@ def coq_nav_case(d, case):
     nav, leaves, n = nav_obs(d)
     navt = clist(nav, lambda e: '(%s, (%s, (%s, %s)))' % (cz(e[0]), cz(e[1]), cz(e[2]), clist(e[3])))
     return '(%s, (%s, (%s, %s)))' % (coq_forest(d, case), navt, clist(leaves), cz(n))
+
+
+# ---------------------------------------------------------------- accessors (C06)
+
+def to_scaled(x, case):
+    den = case.get('den') or 2 ** case.get('scale', 0)
+    v = float(x) * den
+    r = int(round(v))
+    if r != v:
+        raise ValueError('value %r is not on the case grid' % (x,))
+    return r
+
+
+def acc_obs(d, case):
+    shape = tuple(case['shape'])
+    from . import oracles
+    out = []
+    for s in d:
+        own = sorted(oracles.flat_indices(shape, s.indices(subtree=False)))
+        sub = sorted(oracles.flat_indices(shape, s.indices(subtree=True)))
+        po, ps = s.get_peak(subtree=False), s.get_peak(subtree=True)
+        out.append((int(s.idx), own, sub, int(s.get_npix(subtree=False)), int(s.get_npix(subtree=True)),
+                    to_scaled(s.vmin, case), to_scaled(s.vmax, case), to_scaled(s.height, case),
+                    (impl.ravel(shape, po[0]), to_scaled(po[1], case)),
+                    (impl.ravel(shape, ps[0]), to_scaled(ps[1], case))))
+    return out
+
+
+def coq_acc_case(d, case):
+    obs = acc_obs(d, case)
+    labels = [int(x) for x in d.index_map.ravel().tolist()]
+
+    def one(e):
+        return '(%s, ((%s, %s), ((%s, %s), ((%s, %s), (%s, ((%s, %s), (%s, %s)))))))' % (
+            cz(e[0]), clist(e[1]), clist(e[2]), cz(e[3]), cz(e[4]), cz(e[5]), cz(e[6]), cz(e[7]),
+            cz(e[8][0]), cz(e[8][1]), cz(e[9][0]), cz(e[9][1]))
+    return '(%s, %s, %s)' % (clist(labels), coq_forest(d, case), clist(obs, one)), obs
